@@ -44,7 +44,7 @@ TAP = {'records': []}
 def gates(tier):
     return {'direct_configs': 2500, 'dependent_values_checked': 20000, 'declaration_orders_exhaustive': 1000,
             'cyclic_or_dangling_configs': 1000, 'grader_sample_lists_tapped': 600, 'numbered_instances_checked': 500,
-            'sibling_cases': 150, 'sibling_via_dependent_sampler_cases': 60, 'recorded_function_calls': 1000, 'shadowed_constant_cases': 100}
+            'sibling_cases': 100, 'sibling_via_dependent_sampler_cases': 60, 'sibling_numbering_with_string_boxes': 30, 'recorded_function_calls': 1000, 'shadowed_constant_cases': 100}
 
 
 def make_dag(rng, n, allow_vector=True):
@@ -250,16 +250,23 @@ def run_graders(ctx):
             plain = mode == 1
             cfg = dict(numbered_vars=['a'], variables=['x'] + (['a_{0}'] if plain else []),
                        sample_from={'a': base_range, 'x': [21, 22]}, user_functions={'rec': rec}, samples=3)
+            const_same_name = rng.random() < 0.3
+            if const_same_name:
+                # the bare name 'a' is an ordinary constant; only a_{n} are numbered instances
+                cfg['user_constants'] = {'a': 51.5}
             if plain:
                 cfg['sample_from']['a_{0}'] = [41, 42]
                 idxs = [0] + idxs[:2]
             terms = ['rec(a_{%d})' % k for k in idxs]
             ans = '+'.join(terms) + '+x'
             sub = 'x+' + '+'.join(reversed(terms))
+            if const_same_name:
+                ans, sub = ans + '+a', 'a+' + sub
             g = FormulaGrader(answers=ans, **cfg)
             out = lib.call(ctx, g, None, sub)
             ctx.ev()
-            wit = {'answers': ans, 'submission': sub, 'plain_a_{0}': plain, 'outcome': out.brief()}
+            wit = {'answers': ans, 'submission': sub, 'plain_a_{0}': plain, 'constant_named_like_the_numbered_variable': const_same_name,
+                   'outcome': out.brief()}
             if not out.returned or out.value['ok'] is not True:
                 ctx.violation('C13:grader:numbered:verdict', 'identical formula not graded correct: %r' % (out.brief(),), wit)
             for smp_symbols, nsamp, consts, smp_list in TAP['records']:
@@ -279,6 +286,9 @@ def run_graders(ctx):
                                           '%r = %r, expected a draw from %r' % (nm, smp[nm], [lo, hi]), dict(wit, sample=smp))
                     if not 21 <= smp.get('x', 0) <= 22:
                         ctx.violation('C13:grader:variable_outside_sampler', 'x = %r' % smp.get('x'), dict(wit, sample=smp))
+                    if const_same_name and smp.get('a') != 51.5:
+                        ctx.violation('C13:grader:numbered:constant_with_base_name_lost', 'constant a = 51.5, sample has %r' % (smp.get('a', 'nothing'),),
+                                      dict(wit, sample=smp))
                     for c in ('pi', 'e', 'i', 'j'):
                         if c not in smp:
                             ctx.violation('C13:grader:missing_constant', 'sample lacks %r' % c, dict(wit, sample=smp))
@@ -317,6 +327,38 @@ def run_graders(ctx):
                     ctx.count('grader_sample_lists_tapped')
                     check_samples(ctx, 'C13:grader:dag', variables, consts, smp_list, wit, 2)
             ctx.nontrivial(['gdag', wit['variables'], order])
+        elif i % 16 == 7:
+            # sibling_k counts INPUT BOXES: a string box before the referenced formula box does not shift the numbering
+            first = rng.choice(['x+1', '1+x', 'x+2', '2*x'])
+            fx = {'x+1': lambda x: x + 1, '1+x': lambda x: x + 1, 'x+2': lambda x: x + 2, '2*x': lambda x: 2 * x}[first]
+            from mitxgraders import StringGrader
+            layout = rng.choice(['string_first', 'string_between', 'two_strings'])
+            fg = lambda **k: FormulaGrader(variables=['x'], sample_from={'x': [21, 22]}, user_functions={'rec2': rec2}, samples=3, **k)
+            if layout == 'string_first':
+                answers, subs, ref_box = ['cat', 'x+1', 'rec2(sibling_2^2, x)'], [StringGrader(), fg(), fg()], 2
+                inputs = ['cat', first, '(%s)^2' % first]
+            elif layout == 'string_between':
+                answers, subs, ref_box = ['x+1', 'cat', 'rec2(sibling_1^2, x)'], [fg(), StringGrader(), fg()], 1
+                inputs = [first, 'cat', '(%s)^2' % first]
+            else:
+                answers, subs, ref_box = ['cat', 'dog', 'x+1', 'rec2(sibling_3^2, x)'], [StringGrader(), StringGrader(), fg(), fg()], 3
+                inputs = ['cat', 'dog', first, '(%s)^2' % first]
+            g = ListGrader(answers=answers, subgraders=subs, ordered=True)
+            out = lib.call(ctx, g, None, list(inputs))
+            ctx.ev()
+            ctx.count('sibling_cases')
+            ctx.count('sibling_numbering_with_string_boxes')
+            wit = {'answers': answers, 'inputs': inputs, 'layout': layout, 'outcome': out.brief()}
+            if not out.returned:
+                ctx.violation('C13:grader:sibling_numbering:raises', repr(out.brief()), wit)
+            elif out.value['input_list'][-1]['ok'] is not True:
+                ctx.violation('C13:grader:sibling_numbering:verdict', 'the square of box %d was not accepted: %r' % (ref_box, out.value['input_list'][-1]), wit)
+            for r in recorded:
+                ctx.count('recorded_function_calls')
+                if r[0] == 'rec2' and abs(r[1] - fx(r[2]) ** 2) > 1e-9 * abs(r[1]):
+                    ctx.violation('C13:grader:sibling_numbering:inconsistent_sample',
+                                  'rec2 saw sibling_%d^2 = %r with x = %r; box %d holds %r' % (ref_box, r[1], r[2], ref_box, first), wit)
+            ctx.nontrivial(['sibnum', layout, first])
         elif i % 8 == 3:
             # a sibling input needed only by the DependentSampler of a (numbered or plain) variable of the second box
             first = rng.choice(['x+1', '1+x', 'x+2', '2*x'])
